@@ -11,6 +11,7 @@ from .. import core, lmi_common as lc, structural as st
 
 THEOREMS = ['Pk.C12.C12_schur_I', 'Pk.C12.C12_constraint', 'Pk.C12.C12_epigraph', 'Pk.C12.C12_cost',
             'Pk.C12.C12_tikhonov_is_edmd', 'Pk.C12.C12_twonorm_sound', 'Pk.C12.C12_nuclear_partial',
+            'Pk.C12.C12_twonorm_epigraph', 'Pk.C12.C12_nuclear_epigraph', 'Pk.C12.C12_nuclear_trace_bound', 'Pk.C12.C12_nuclear_epigraph_exists',
             'Pk.C12.C12_dmdc_constraint', 'Pk.C12.C12_dmdc_epigraph', 'Pk.C12.C12_dmdc_cost', 'Pk.C12.C12_dmdc_defect',
             'PkLA.dmdc_residual']
 INV = ['inv', 'pinv', 'eig', 'ldl', 'chol', 'sqrt', 'svd']
@@ -187,7 +188,7 @@ def run(ctx):
                 'vs the Lean blocks; (ii) cvxopt fits of LmiEdmd (all inv_method x reg_method x square_norm) and LmiDmdc: '
                 'competitor search on the documented cost and agreement with Edmd for pure Tikhonov')
     ctx.explanation = ('theorems C12_* (Schur complement of the epigraph block, tight slack, objective = documented cost, '
-                       'Tikhonov = EDMD, two-norm soundness, nuclear partial); correspondence on problem structure; oracle: '
+                       'Tikhonov = EDMD, two-norm and nuclear-norm blocks = exact epigraphs); correspondence on problem structure; oracle: '
                        'no competitor beats the returned cost by more than 2e-5 relative (SDP tolerance)')
     ctx.assumptions = ["an 'optimal' answer is optimal up to solver tolerance", 'numeric factorisations (chol, ldl, eig, sqrt, svd) are validated (L L^T = H to 1e-8), not proved']
     ctx.proof_obligations('Properties.C12', THEOREMS)
